@@ -59,12 +59,16 @@ impl Property for C14 {
             "owner_terminated_by_failure_resource_closed",
             "handle_in_mailbox_of_finished_process_closed",
             "second_resource_kind_used",
+            "session_process_awaited_while_owning",
             "ownership_returned_to_earlier_owner",
             "transfer_below_closure_top_level",
             "process_owning_two_resources_closed",
         ]
     }
     fn generate(&self, rng: &mut Rng, _tier: Tier) -> Scenario {
+        if rng.chance(1, 12) {
+            return repl_owner(rng);
+        }
         let defs: Vec<String> = vec![USER.into(), GIVER.into(), KEEPER.into(), KEEPT.into(), CHILD.into(), KEEPFN.into(), LAZY.into(), IDLE.into(), TWO.into(), BOUNCER.into(), PP.into()];
         let mut h = crate::rng::Fnv::default();
         let mut lines: Vec<String> = Vec::new();
@@ -300,6 +304,48 @@ impl Property for C14 {
     }
 }
 
+/// The session's own (persistent) process owns a file across lines while other processes await the
+/// session process, are awaited by it, or receive the handle: the process sleeps between lines, it has
+/// not terminated, and its file must stay open and usable until the handle is given away.
+fn repl_owner(rng: &mut Rng) -> Scenario {
+    let mut ops = vec![ClientOp::Line { session: 0, src: format!("{KEEPER}, f = [\"/repl\" .0, 577, 420] __file_open__, w0 = [f, 0, 0x01020304] __file_write__") }];
+    let mut h = crate::rng::Fnv::default();
+    h.u64(0x7e91);
+    let n = 1 + rng.usize(3);
+    for i in 0..n {
+        let k = rng.below(4);
+        h.u64(k);
+        let line = match k {
+            // somebody awaits the sleeping session process (`@!` = the session's own process id)
+            0 | 1 => format!("aw{i} = @{{ !@! }}, Ok"),
+            // the session awaits a child that finishes
+            2 => format!("c{i} = @{{ {} }}, !c{i}", rng.range(1, 9)),
+            _ => format!("z{i} = ! [{}], Ok", *rng.pick(&[0u32, 5, 40])),
+        };
+        ops.push(ClientOp::Line { session: 0, src: line });
+        ops.push(ClientOp::Line { session: 0, src: format!("d{i} = [f, 0, {}] __file_read__, d{i} __binary_length__", 1 + rng.usize(4)) });
+    }
+    if rng.chance(1, 2) {
+        // finally the handle goes to a keeper, which reads it and finishes (closing it)
+        ops.push(ClientOp::Line { session: 0, src: "k = 0 @keeper, f k, !k".to_string() });
+        h.u64(0xfe);
+    }
+    Scenario {
+        family: "c14-repl-owner".into(),
+        ops,
+        modules: vec![],
+        files: Default::default(),
+        timing: true,
+        // (no random backend faults here: a failed line ends the session and with it the scenario)
+        io: false,
+        fixed_faults: Default::default(),
+        expect: serde_json::json!({}),
+        shape: h.0,
+        est_len: 150,
+        min_quantum: 0,
+    }
+}
+
 #[derive(Default)]
 pub struct ResMonitor {
     owner: BTreeMap<usize, usize>,
@@ -369,8 +415,14 @@ impl ResMonitor {
     fn probe(&mut self, k: &str) {
         *self.probes.entry(k.to_string()).or_insert(0) += 1;
     }
+    /// A process has terminated when it has a result - except a persistent one (the REPL's, a run-path
+    /// entry process), which merely sleeps with a successful result and is resumed by the next line.
     fn terminated(world: &World, pid: usize) -> bool {
-        world.worker_of(pid).is_some_and(|w| world.workers[w].verif_executor().get_process(pid).is_some_and(|p| p.result.is_some()))
+        world.worker_of(pid).is_some_and(|w| world.workers[w].verif_executor().get_process(pid).is_some_and(|p| match &p.result {
+            None => false,
+            Some(Ok(_)) => !p.persistent,
+            Some(Err(_)) => true,
+        }))
     }
     fn failed(world: &World, pid: usize) -> bool {
         world.worker_of(pid).is_some_and(|w| world.workers[w].verif_executor().get_process(pid).is_some_and(|p| matches!(p.result, Some(Err(_)))))
@@ -479,6 +531,9 @@ impl Monitor for ResMonitor {
                 }
                 Event::AwaitAction { targets, .. } => {
                     self.awaited.extend(targets.iter().copied());
+                    if targets.iter().any(|t| self.owner.iter().any(|(r, o)| o == t && self.open.contains(r)) && world.worker_of(*t).is_some_and(|w| world.workers[w].verif_executor().get_process(*t).is_some_and(|p| p.persistent))) {
+                        self.probe("session_process_awaited_while_owning");
+                    }
                 }
                 Event::ProcessResults { results, .. } => {
                     for (pid, r) in results {
